@@ -25,6 +25,9 @@ checks={
  "C14":dict(text=LVL+"counter arithmetic of <=3 Add(num) calls with num symbolic (panic iff negative, unchanged on panic, Num = sum); scenarios of <=2 (3) workers started through Launch / Operation.Add / DoTimes / manual Add-Done and <=2 (3) concurrent waiters, cancellation of a waiter, reuse over two rounds, all under the symbolic scheduler; assertions at quiescence and by the waiter itself right after Wait returns",
             note="preemption bound 2 quick / 3 thorough (reuse 1 / 2); num in [-2^61,2^61] (counter overflow outside); 'always returns' = at quiescence under weak fairness; trusted: sync/cond/channel/context models of DESIGN §3.2",
             ref="§5 C14", tech="SSA symbolic execution with symbolic scheduler (bounded, sleep sets) + SMT for the counter arithmetic"),
+ "C15":dict(text=LVL+"Once (10 wrapper kinds incl. ft.Once/OnceDo, adt.Once, Mnemonize) under concurrent callers with a symbolic result; Limit(n) with symbolic n, sequentially (solver decides executions = min(n,calls) and the cached last result) and with 2x2 concurrent calls (lock-free fast path explored by the scheduler); Lock/WithLock concurrency gauge; Retry(n) with symbolic n over every outcome sequence; PreHook/PostHook/Join order logs with live and cancelled contexts; Launch/Signal/Background/StartGroup waiters parked at quiescence while the background function is blocked",
+            note="<=2 (quick) / <=3 (thorough) concurrent callers, preemption bound 2 / 3; n<=4, <=5 calls; TTL/Delay/After/Jitter/Interval (wall clock) outside; trusted: sync.Once/Mutex/atomic/channel models of DESIGN §3.2",
+            ref="§5 C15", tech="SSA symbolic execution + SMT for n/count arithmetic, symbolic scheduler for the concurrent clauses"),
 }
 NA={}
 m={"version":1,
